@@ -143,8 +143,10 @@ Definition is_word (c : ascii) : bool := is_alnum c || Ascii.eqb c "_"%char.
 Definition is_name_char (c : ascii) : bool := is_word c || Ascii.eqb c "-"%char.
 Definition is_slice_char (c : ascii) : bool := is_name_char c || Ascii.eqb c ":"%char.
 
-(* the parser strips a term that starts and ends with the same quote
-   character even when those quotes were escaped (finding F21) *)
+(* a term that starts and ends with the same quote character.  The parser
+   used to strip such a term even when its quotes were escaped (finding F21,
+   repaired); SearchTerms.__str__ still writes it without escaping the quotes,
+   so the clauses that go through str() keep the guard (wfc_seg) *)
 Definition quote_wrapped (s : string) : bool :=
   match first_char s, last_char s with
   | Some a, Some b => (Ascii.eqb a "'"%char || Ascii.eqb a """"%char) && Ascii.eqb a b
@@ -195,12 +197,7 @@ Definition wf_seg (prev_coll : bool) (x : sseg) : bool :=
          | MRegex =>
              negb (str_in (st_delim st) term)
              && negb (Ascii.eqb (st_delim st) " "%char) && negb (Ascii.eqb (st_delim st) "\"%char)
-             && negb (quote_wrapped term)                 (* F21 *)
-         | _ =>
-             match st_quote st with
-             | None => negb (quote_wrapped term)          (* F21 *)
-             | Some _ => true
-             end
+         | _ => true
          end
   | (Some TKeywordSearch, AKeyword inv k params) => true
   | (Some TCollector, ACollector op expr) =>
